@@ -287,5 +287,30 @@ def r11_6(ctx):
                 "the type of the synthetic symbol is inferred from the value as written in the file")
 
 
+def r11_7(ctx):
+    """R11.7 (a) a deprecated-block entry inherits the type of its replacement only when the replacement is a *defined* option
+    (`new_sym.nodes`; a name that merely occurs in some expression has type UNKNOWN and would make the entry unassignable);
+    (b) the configuration prefix is removed from the front of a name only (slicing after startswith - never
+    str.replace(), which also removes the prefix text inside names such as CONFIG_ESP_MENUCONFIG_STYLE)."""
+    repo = ctx.repo
+    f = repo.func(f"{CORE}:Kconfig._load_config.<locals>._create_new_deprecated_symbol")
+    ctx.analysed(f.qual)
+    fl = Flow(f.node, resolver=Resolver(f.node)).run()
+    uses = [n for n in ast.walk(f.node) if isinstance(n, ast.Attribute) and n.attr in ("orig_type", "type") and ast.unparse(n.value) == "new_sym" and isinstance(n.ctx, ast.Load)]
+    construct = "_create_new_deprecated_symbol/type inherited only from a defined replacement"
+    if not uses:
+        ctx.ok(construct + " (no type inheritance)", f.loc(), nontrivial=False)
+    else:
+        bad = [u for u in uses if ("new_sym.nodes", True) not in (fl.guards_at(u) or set())]
+        (ctx.bad(construct, f"`{ast.unparse(bad[0])}` is read without `new_sym.nodes`: a replacement that is only referenced (never defined) hands its UNKNOWN type "
+                 "to the synthetic symbol, whose value is then rejected", f.loc(bad[0])) if bad else ctx.ok(construct, f.loc(uses[0])))
+    g = repo.func("esp_kconfiglib.deprecated:DeprecatedOptions.remove_config_prefix")
+    ctx.analysed(g.qual)
+    rep = [n for n in ast.walk(g.node) if isinstance(n, ast.Call) and isinstance(n.func, ast.Attribute) and n.func.attr in ("replace", "lstrip", "strip", "removesuffix")
+           and "config_prefix" in ast.unparse(n)]
+    construct = "DeprecatedOptions.remove_config_prefix/only the leading prefix is removed"
+    (ctx.bad(construct, f"`{ast.unparse(rep[0])}` removes the prefix text wherever it occurs: names containing it again (…_SDKCONFIG_…, …MENUCONFIG_…) are stored mangled "
+             "and assignments through them are not resolved", g.loc(rep[0])) if rep else ctx.ok(construct, g.loc()))
+
 def rules():
-    return [("R11.6", r11_6, 6), ("R11.1", r11_1, 7), ("R11.2", r11_2, 2), ("R11.3", r11_3, 4), ("R11.4", r11_4, 6), ("R11.5", r11_5, 3)]
+    return [("R11.7", r11_7, 2), ("R11.6", r11_6, 6), ("R11.1", r11_1, 7), ("R11.2", r11_2, 2), ("R11.3", r11_3, 4), ("R11.4", r11_4, 6), ("R11.5", r11_5, 3)]
